@@ -280,8 +280,90 @@ def _locate(stmts, at):
     return stmts
 
 
+def _expose_helper_calls(fn, caller_cls, helpers) -> None:
+    """Bring calls of multi-statement helpers that sit inside an expression into the `t = h(..)` form the inliner handles:
+       * `x = [ .. h(..) .. for v in it]`      ->  `x = []` + `for v in it: x.append(.. h(..) ..)`
+       * `S[ h(..) ]` where the call is the first thing the statement evaluates (only names / constants before it)
+                                               ->  `h__k = h(..)` ; `S[ h__k ]`"""
+    counter = [0]
+
+    def is_multi(call):
+        m = _match_call(call, helpers, caller_cls)
+        return m is not None and m[0].expr is None and m[0].fn is not fn
+
+    def first_effect_is(value, call):
+        order = []
+
+        def ev(node):
+            if isinstance(node, (ast.Lambda, ast.ListComp, ast.SetComp, ast.DictComp, ast.GeneratorExp, ast.IfExp, ast.BoolOp)):
+                order.append(node)
+                return
+            for ch in ast.iter_child_nodes(node):
+                ev(ch)
+            if isinstance(node, (ast.Call, ast.Attribute, ast.Subscript)):
+                order.append(node)
+        ev(value)
+        inside = {id(n) for n in ast.walk(call)}
+        for n in order:
+            if n is call:
+                return True
+            if id(n) in inside:
+                continue
+            if isinstance(n, ast.Attribute) and isinstance(n.ctx, ast.Load) and isinstance(n.value, ast.Name):
+                continue        # e.g. the bound method `x.append` looked up before its argument is evaluated
+            return False
+        return False
+
+    def visit(block):
+        i = 0
+        while i < len(block):
+            st = block[i]
+            if isinstance(st, ast.Assign) and len(st.targets) == 1 and isinstance(st.targets[0], ast.Name) and isinstance(st.value, ast.ListComp) \
+                    and len(st.value.generators) == 1 and not st.value.generators[0].is_async \
+                    and any(isinstance(n, ast.Call) and is_multi(n) for n in ast.walk(st.value.elt)):
+                g = st.value.generators[0]
+                tname = st.targets[0].id
+                if not any(isinstance(n, ast.Name) and n.id == tname for n in ast.walk(st.value)):
+                    app = ast.Expr(value=ast.Call(func=ast.Attribute(value=ast.Name(id=tname, ctx=ast.Load()), attr="append", ctx=ast.Load()), args=[st.value.elt], keywords=[]))
+                    body = [app]
+                    for c in reversed(g.ifs):
+                        body = [ast.If(test=c, body=body, orelse=[])]
+                    loop = ast.For(target=g.target, iter=g.iter, body=body, orelse=[])
+                    new = [ast.Assign(targets=[ast.Name(id=tname, ctx=ast.Store())], value=ast.List(elts=[], ctx=ast.Load())), loop]
+                    block[i:i + 1] = _locate(new, st)
+                    continue
+            if isinstance(st, (ast.Assign, ast.AnnAssign, ast.Expr, ast.Return, ast.AugAssign)) and getattr(st, "value", None) is not None:
+                top = st.value
+                for n in ast.walk(top):
+                    if isinstance(n, ast.Call) and n is not top and is_multi(n) and first_effect_is(top, n) and not isinstance(st, ast.AugAssign):
+                        counter[0] += 1
+                        tmp = f"{_match_call(n, helpers, caller_cls)[0].name.lstrip('_')}__r{counter[0]}"
+                        pre = ast.Assign(targets=[ast.Name(id=tmp, ctx=ast.Store())], value=copy.deepcopy(n))
+
+                        class R(ast.NodeTransformer):
+                            def visit_Call(self, node):
+                                if node is n:
+                                    return ast.Name(id=tmp, ctx=ast.Load())
+                                self.generic_visit(node)
+                                return node
+                        st.value = R().visit(st.value)
+                        block[i:i] = _locate([pre], st)
+                        break
+            if not isinstance(st, (ast.FunctionDef, ast.AsyncFunctionDef, ast.ClassDef)):
+                for field in ("body", "orelse", "finalbody"):
+                    v = getattr(st, field, None)
+                    if isinstance(v, list) and v and isinstance(v[0], ast.stmt):
+                        visit(v)
+                for hd in getattr(st, "handlers", []) or []:
+                    visit(hd.body)
+            i += 1
+    visit(fn.body)
+    ast.fix_missing_locations(fn)
+
+
 def _inline_in_function(fn, caller_cls, helpers) -> int:
     done = 0
+    _expose_helper_calls(fn, caller_cls, helpers)
     caller_names = _names(fn)
 
     def expr_inline(node):
